@@ -573,7 +573,7 @@ func gen(tier string, r *lib.Rand, emit func(string)) {
 	emit("dictsumchain -")
 
 	// (a) every small n, rotating subset of the configurations (all of them in thorough)
-	small, rot := 64, 8
+	small, rot := 64, 4
 	if thorough {
 		small, rot = 1024, 1
 	}
@@ -595,7 +595,7 @@ func gen(tier string, r *lib.Rand, emit func(string)) {
 
 	// (b) the bit-pattern families, for every configuration targets directed at its K and T
 	sizes := []int{24, 48, 64, 96, 128, 192, 256}
-	perCfg := 1
+	perCfg := 3
 	if thorough {
 		sizes = []int{24, 48, 64, 96, 128, 192, 256, 384, 512}
 		perCfg = 12
@@ -618,7 +618,7 @@ func gen(tier string, r *lib.Rand, emit func(string)) {
 		}
 	}
 	// a few very long targets
-	nlong := 6
+	nlong := 16
 	if thorough {
 		nlong = 120
 	}
@@ -637,7 +637,7 @@ func gen(tier string, r *lib.Rand, emit func(string)) {
 		}
 	}
 	// the same target through every member of the ensemble (what the search command does)
-	nsame := 1
+	nsame := 3
 	if thorough {
 		nsame = 8
 	}
